@@ -14,7 +14,7 @@ ASSUME = [
     "statement oracle: distance to the exact rotation by k*a at most 2*a*|c0| + 2e-4 for every step of one period (first-order splitting error), including closure at k = steps",
     "sinusoidal model: small amplitude (|c0| <= 2 sigma, synchronous phase ~ 0), extra allowance max(2e-3, (k_RF*4.5 sigma)^2/6)*|c0|*(1+k*a) for the curvature of the sine over the region the charge occupies (API part: k_RF*sigma up to 0.1; program part: 2e-3)",
     "centroids are the oracle's own double-precision first moments (API part) / the stored /BunchPosition and /EnergyAverage (program part, whose consistency with the grid is C10's subject)",
-    "start distributions are narrow Gaussians (API part: cut at 4 sigma) that stay inside the grid during the whole rotation; steps at which more than 2e-6 of the charge has nevertheless reached the border (numerical diffusion of low-order schemes) are not judged (the property is about distributions that stay inside the grid) and counted",
+    "start distributions are narrow Gaussians (API part: cut at 4 sigma) that stay inside the grid during the whole rotation; API part: from the step on at which more than 1e-7 of the |charge| lies within three cells of the border (numerical diffusion of low-order schemes) a case is no longer judged (the property is about distributions that stay inside the grid) and counted; program part: records after more than 2e-6 of the charge has been lost",
 ]
 
 
